@@ -617,6 +617,25 @@ func c11run(out *rec.Out, c c11case, rng *rec.Rng, stats map[string]int) {
 	for k, v := range vars {
 		anyVars[k] = v
 	}
+	if len(steps)%3 == 0 {
+		// ANOTHER document was instantiated earlier in this program: the same element and definition ids, but every
+		// catch event listens for a different event. Nothing of it may be left when the document under test runs.
+		g0 := eng.NewGraph()
+		s.build(g0)
+		for _, n := range g0.Nodes {
+			for i := range n.Defs {
+				n.Defs[i].Name += "_earlier_document"
+			}
+		}
+		if d0, err := schema.Parse([]byte(g0.XML())); err == nil {
+			if in0, err := eng.NewInst(d0, anyVars); err == nil {
+				in0.Proc.StartAll(in0.Ctx)
+				in0.Quiesce(2 * timeSecond)
+				in0.Stop(2 * timeSecond)
+				stats["cases_after_an_earlier_document_with_the_same_ids"]++
+			}
+		}
+	}
 	defs, err := schema.Parse([]byte(g.XML()))
 	if err != nil {
 		out.Line("harness-error parse %v", err)
